@@ -30,7 +30,7 @@ theorem C08_goodbyes (h h' : Host) (s : Svc) (oid : Nat) (now : Int) (out : List
       (goodbyePkt s (hostShared lower h'.reg s)).answers =
         [s.ptr (some 0), s.srv (some 0), s.txt (some 0)] ++ (if hostShared lower h'.reg s then [] else s.addrNsec (some 0)) ∧
       ∀ r ∈ (goodbyePkt s (hostShared lower h'.reg s)).answers, r.ttl = 0 := by
-  simp only [Host.step, Option.some.injEq, Prod.mk.injEq] at hs
+  simp only [Host.step, unregRemove_eq, Option.some.injEq, Prod.mk.injEq] at hs
   obtain ⟨rfl, rfl⟩ := hs
   refine ⟨rfl, rfl, _, List.mem_append_right _ (List.mem_singleton.2 rfl), ?_, ?_, ?_⟩
   · simp [Task.schedule, Task.step, Gen.Register.announce_stops, Zc.GenFacts.Register.broadcast_count_eq, unregisterTime_eq,
@@ -92,7 +92,7 @@ theorem C08_no_resurrection (pre : List Block) (h0 : Host) (out0 : List Pkt) (hp
       r.ttl = 0 ∨ hits lower (withdrawn s (hostShared lower h1.reg s)) r = false := by
   have hw := wf_run lower pre _ h0 out0 (wf_init lower) hpre
   have hreg : h1.reg = regRemove lower h0.reg (key lower s) := by
-    simp only [Host.step, Option.some.injEq, Prod.mk.injEq] at hs
+    simp only [Host.step, unregRemove_eq, Option.some.injEq, Prod.mk.injEq] at hs
     obtain ⟨rfl, _⟩ := hs
     rfl
   have hsep : ∀ e ∈ h1.reg, ¬ owns lower (withdrawn s (hostShared lower h1.reg s)) e.svc := by
@@ -180,7 +180,7 @@ theorem C08_closed_silent : ∀ (bs : List Block) (h h' : Host) (out : List Pkt)
       obtain ⟨rfl, rfl⟩ := hs
       exact ⟨rfl, hd⟩
     | unregister s oid now =>
-      simp only [Host.step, Option.some.injEq, Prod.mk.injEq] at hs
+      simp only [Host.step, unregRemove_eq, Option.some.injEq, Prod.mk.injEq] at hs
       obtain ⟨rfl, rfl⟩ := hs
       exact ⟨rfl, hd⟩
     | task oid ttl ad due =>
@@ -240,7 +240,7 @@ theorem C08_closed_silent : ∀ (bs : List Block) (h h' : Host) (out : List Pkt)
       obtain ⟨rfl, rfl⟩ := hs
       exact ⟨hem _, hd⟩
     | close =>
-      simp only [Host.step, Option.some.injEq, Prod.mk.injEq] at hs
+      simp only [Host.step, unregRemove_eq, Option.some.injEq, Prod.mk.injEq] at hs
       obtain ⟨rfl, rfl⟩ := hs
       exact ⟨rfl, rfl⟩
   intro bs
